@@ -252,6 +252,12 @@ func genOpenBigMutations(h *H, n int) {
 			h.Run(Case{Op: "open", A: map[string]string{"vd": "any", "keys": ringKeysStr([][]byte{p.victimSk}), "senders": "all", "input": hx(input),
 				"buf": "4096", "truth": blist([][]byte{p.msgA, p.msgB}), "honest": hx(boxPk(p.senderSk)), "mut": mut}})
 		}
+		cuts, tags := boundaryCuts(p.wireA)
+		for k, input := range cuts {
+			h.tag("mut-big:" + tags[k])
+			h.Run(Case{Op: "open", A: map[string]string{"vd": "any", "keys": ringKeysStr([][]byte{p.victimSk}), "senders": "all", "input": hx(input),
+				"buf": "4096", "truth": blist([][]byte{p.msgA, p.msgB}), "honest": hx(boxPk(p.senderSk)), "mut": tags[k]}})
+		}
 	}
 }
 
@@ -413,6 +419,12 @@ func genScOpenMutations(h *H, n int) {
 		h.tag("mut:insider-swap-positions")
 		h.Run(Case{Op: "sc_open", A: map[string]string{"keys": ringKeysStr([][]byte{p.victimSk}), "signers": blist([][]byte{p.signerSk[32:]}), "resolver": "none", "input": hx(insiderSwapSc(p)),
 			"buf": "4096", "truth": blist([][]byte{p.msgA, p.msgB}), "honest": hx(p.signerSk[32:]), "mut": "insider-swap-positions"}})
+		cuts, tags := boundaryCuts(p.wireA)
+		for k, input := range cuts {
+			h.tag("mut-big:" + tags[k])
+			h.Run(Case{Op: "sc_open", A: map[string]string{"keys": ringKeysStr([][]byte{p.victimSk}), "signers": blist([][]byte{p.signerSk[32:]}), "resolver": "none", "input": hx(input),
+				"buf": "4096", "truth": blist([][]byte{p.msgA, p.msgB}), "honest": hx(p.signerSk[32:]), "mut": tags[k]}})
+		}
 	}
 	for i := 0; i < n; i++ {
 		la, lb := 1+h.rng.Intn(300), h.rng.Intn(300)
